@@ -157,16 +157,17 @@ class World:
         self.clock_drift = [0.0] * nranks
         self.clock_jumps = [[] for _ in range(nranks)]
         cm = sched.get('clock', 'exact')
+        span = sched.get('clock_span')            # expected virtual length of the run, if the caller knows it
         if cm != 'exact':
             for r in range(nranks):
                 if cm in ('skew', 'all'):
                     self.clock_offset[r] = (self.draw() - 0.5) * 7200.0
                 if cm in ('drift', 'all'):
-                    self.clock_drift[r] = (self.draw() - 0.5) * 0.2
+                    self.clock_drift[r] = (self.draw() - 0.5) * (0.6 if span else 0.2)
                 if cm in ('jump', 'all'):
                     for _ in range(2):
-                        when = self.draw() * 2000.0
-                        size = (self.draw() - 0.3) * 100.0
+                        when = self.draw() * (span if span else 2000.0)
+                        size = (self.draw() - 0.3) * (0.6 * span if span else 100.0)
                         self.clock_jumps[r].append((when, size))
         self.results = [None] * nranks
         self.excs = [None] * nranks
